@@ -36,7 +36,7 @@ ASSUMPTIONS = [
     "prev_hedge columns vs previous output: bitwise",
     "'empty' feature excluded; CPU only",
 ]
-PROBES = ["price_scale_not_one", "contract_changed_on_same_paths", "feature_schedule", "hedger_schedule", "recurrent_log", "recurrent_after_fault", "H2", "listed_hedge",
+PROBES = ["feature_object_bound_to_two_contracts", "price_scale_not_one", "contract_changed_on_same_paths", "feature_schedule", "hedger_schedule", "recurrent_log", "recurrent_after_fault", "H2", "listed_hedge",
           "other_use_between", "prev_hedge_not_last", "loss_compared", "ww_model", "bound_feature_reused", "steps_out_of_order", "recurrent_under_grad"]
 
 
@@ -94,7 +94,7 @@ def generate(rng):
                     inner = rng.sample(adm, rng.randint(1, 2))
                     f = {"f": "module_output", "module": {"kind": "linear", "in": len(inner), "out": 1, "init_seed": rng.seed31()},
                          "inputs": inner}
-            ops.append({"op": "feature_sched", "feature": f, "derivative": "d0", "order_seed": rng.seed31()})
+            ops.append({"op": "feature_sched", "feature": f, "derivative": "d0", "order_seed": rng.seed31(), "also_d1": rng.chance(0.6)})
             if rng.chance(0.5):
                 # the same bound feature object again, after a re-simulation of the same shape
                 ops.append({"op": "simulate", "target": "d0", "n_paths": n0, "torch_seed": rng.seed31()})
@@ -179,7 +179,8 @@ def _execute(program, stats, hist):
     sig = []
     hazard = False
     after_fault = False
-    bound = {}  # features bound once with .of(derivative) and re-used across operations (and re-simulations)
+    bound = {}
+    origs = {}  # features bound once with .of(derivative) and re-used across operations (and re-simulations)
     for op in program["ops"]:
         seq = hist.seq
         if "fault" in op:
@@ -288,6 +289,7 @@ def _execute(program, stats, hist):
                 f = get_feature(build_feature(op["feature"], world))
                 if isinstance(f, torch.nn.Module):
                     f.to(dtype)
+                origs[key] = f
                 f = f.of(d)
                 bound[key] = f
             loose = isinstance(op["feature"], dict) and op["feature"]["f"] == "module_output"
@@ -331,6 +333,26 @@ def _execute(program, stats, hist):
                 if not ok:
                     raise Violation(ID, "schedule_disagreement", "feature:%s" % fname, {
                         "step": i, "get_i": s, "get_all_col": allv[:, [i]], "worst": worst}, seq)
+            # the same feature object bound to a second contract on the same paths (another strike): its step-by-step values
+            # are those of the second contract
+            d1_ = world.derivatives.get("d1")
+            if d1_ is not None and op.get("also_d1") and key in origs and not isinstance(origs[key], torch.nn.Module):
+                try:
+                    f1 = origs[key].of(d1_)
+                    with torch.no_grad():
+                        all1 = f1.get(None)
+                        st1 = [f1.get(i) for i in order]
+                except Exception:
+                    all1 = None
+                if all1 is not None:
+                    stats.probe("feature_object_bound_to_two_contracts")
+                    for i, s1 in zip(order, st1):
+                        stats.checks += 1
+                        eps = torch.finfo(dtype).eps
+                        ok, worst = _close(s1, all1[:, [i]], 0.0, 16 * eps * scale) if scale else _close(s1, all1[:, [i]], 16 * eps, 0.0)
+                        if not ok:
+                            raise Violation(ID, "schedule_disagreement", "feature:%s[second contract]" % fname, {
+                                "step": i, "get_i": s1, "get_all_col": all1[:, [i]], "worst": worst}, seq)
             sig.append(("feature", fname))
             hist.add(op=name, feature=fname, value=thash(allv))
         elif name == "hedger_sched":
